@@ -14,84 +14,84 @@ CHECKS = {
    text="(file, index) of every error come from one source object at every constructor call; Line/Column/Quote/trace lines only through NewLocation; JApiError/Location built only in package jerr; post-scan errors only through Directive.makeError with the captured trace; scan-time errors get the live stack, innermost first, once; the include-tracer memo builds its value from the live stack only and its key must determine the value (today it does not: recorded finding F16, repair blocked by a pinned test). Whether the index is the right one per message, and index < len(file), are not claimed.",
    design="DESIGN.md §5 C07",
    note=TB + "EOF errors carry index == len(file) and the pinned negative tests assert it: no rule is armed on that.",
-   technique="provenance lint of constructor arguments; who-may-construct and who-may-search-for-line-ends rules; memo key/value dependence analysis with a lossy-function deny list; edge-fact condition on the deferred trace attachment"),
+   technique="provenance lint of constructor arguments; who-may-construct and who-may-search-for-line-ends rules; memo key/value dependence analysis with a lossy-function deny list; edge-fact condition on the deferred trace attachment; must-pass-through of the include-trace attachment on go/cfg; located errors are not re-told (type-based)"),
  "C09": dict(
    engine="rules/c09.go (+ c14.go validate-first)",
    category="other",
    text="The file switch at INCLUDE and at the end of an included file neither writes nor inspects parser state (store lint over the functions reachable from processInclude / isScanningFinished), open-context and JSIGHT tests are scoped by the include stack, scanning state is isolated per Scanner, directives of two inclusions are distinct instances, and every memo is keyed by what its value depends on. Catalog equality of split and unsplit documents is behavioural and not claimed.",
    design="DESIGN.md §5 C09",
    note=TB,
-   technique="write-effect lint at the file switch; scope conditions by edge facts; memo key/value dependence analysis; LIFO and key facts of the scanner stack from abstract evaluation of SSA; keyword pre-filters by abstract run on constants; position-needs-file comparison lint with a built-in positive example"),
+   technique="write-effect lint at the file switch; scope conditions by edge facts; memo key/value dependence analysis; LIFO and key facts of the scanner stack from abstract evaluation of SSA; keyword pre-filters by abstract run on constants; position-needs-file comparison lint with a built-in positive example; agreement of a write count with the length it is compared with"),
  "C15": dict(
    engine="rules/c09.go (C15 part)",
    category="other",
    text="Phase-order necessary condition for order independence: along the straight-line build pipeline, for each cross-block name space the phases that insert names precede the phases that resolve them; rules are attached only to fresh schemas; memo sets are insert-only and memo keys cover their values; keyword pre-filters that end a Description cover every keyword. The tag name space violates it today (recorded finding F20). Equality under permutation is behavioural and not claimed.",
    design="DESIGN.md §5 C15",
    note=TB,
-   technique="insert/resolve effect sets per pipeline phase compared along the phase order for every map field; placement invariants of processContext (abstract evaluation of SSA); end-of-Description predicate folded on the keyword table"),
+   technique="insert/resolve effect sets per pipeline phase compared along the phase order for every map field; placement invariants of processContext (abstract evaluation of SSA); end-of-Description predicate folded on the keyword table; stateful dependency calls in the build phases (with a discharge for samples that are never shown); symmetric check-and-register registries; membership tests as resolves"),
  "C17": dict(
    engine="rules/c17.go (+ c01.go recover discipline)",
    category="other",
    text="'Never panics' for the module and everything the export calls: both accessors are a single call of a helper whose deferred recover assigns named results and which contains conversion and encoding; every panic/assertion site below it is listed as covered; no other entry into the converter. Plus: method exhaustiveness of assignOperation, Required=true before a path parameter is appended, response keys are codes or \"default\", post-expansion phases read the expanded directive list. Structural validity of the produced document is produced by the dependency from data and is not claimed.",
    design="DESIGN.md §5 C17",
    note=TB,
-   technique="recover-boundary coverage over the call graph; exhaustiveness by abstract run of the dispatcher per method constant; every-iteration-appends on go/cfg; edge facts evaluated on constants (components iff user types); error-discipline lint over the export"),
+   technique="recover-boundary coverage over the call graph; exhaustiveness by abstract run of the dispatcher per method constant; every-iteration-appends on go/cfg; edge facts evaluated on constants (components iff user types); error-discipline lint over the export; asserted form (T / *T) against the form of literals put behind interfaces; loop-carried flags; dead and shadowing error stores; coverage of counting loops"),
  "C04": dict(
    engine="rules/c04.go (+ c03.go dropped-error rule, c16.go dependency-call rule)",
    category="other",
    text="Mechanisms behind 'accepted => serialisable': no compile/load/check error of a schema object is dropped on the build path (two sites are a recorded finding, F15), lazily computed content keeps its failure, ToJson/ToJsonIndent encode the same value, hand-written emitters write only encoder output, pseudo schemas exist only for any/empty, regex bodies are checked when built, path-variable properties bring all their types, pool-backed bytes are copied. The JDoc shape of every schema node is produced by the dependency and is not claimed.",
    design="DESIGN.md §5 C04",
    note=TB + "F15 is listed in known_findings.json (repair attempted, breaks pinned snapshots).",
-   technique="error-discipline lint over the reachable call graph; structural rules on emitters and constructors; emitted key table compared with a frozen reference; required arrays initialised on every path to the encoder"),
+   technique="error-discipline lint over the reachable call graph; structural rules on emitters and constructors; emitted key table compared with a frozen reference; required arrays initialised on every path to the encoder; coupling of serialise format and notation at call sites; dead and shadowing error stores on SSA; reads of once-initialised fields behind the Once (dominance); marshal purity; regex example probe"),
  "C16": dict(
    engine="rules/effects.go (E5 write effects over SSA) + rules/c16.go",
    category="other",
    text="For the module's code: interprocedural write effects (fixpoint over SSA, Once closures cut) show that nothing reachable from the five accessors or from MarshalJSON/MarshalText writes into pre-existing catalog/core/directive objects or package state; Once closures keep their state in the object; stateful dependency calls are Once-memoised and pool-backed bytes are copied before being kept. Byte equality inside the dependency is trusted (classification table depAPI).",
    design="DESIGN.md §5 C16",
    note=TB + "Heap freshness is allocation-site based (no points-to analysis in x/tools v0.29.0).",
-   technique="mod/ref (write-effect) analysis on go/ssa with a VTA call graph (shallow/deep writes through parameters, copies share what their pointers lead to; standard-library sorters count as writers); classification of dependency calls inherited along the dependency's call graph; once-only code writes only into its owner; once-closure totality"),
+   technique="mod/ref (write-effect) analysis on go/ssa with a VTA call graph (shallow/deep writes through parameters, copies share what their pointers lead to; standard-library sorters count as writers); classification of dependency calls inherited along the dependency's call graph; once-only code writes only into its owner; once-closure totality; reads of once-initialised fields behind the Once; untyped deep stores that reach an entry point's receiver"),
  "C18": dict(
    engine="rules/c18.go + effects.go + c06.go (package state)",
    category="other",
    text="The module's share of 'no unsynchronised shared mutable state': package variables are never written after initialisation, Options do not leak references between cores, mutex-guarded types access mutable fields only under the lock, serialisers only read apart from Once-protected state, no goroutines are started. In the dependency, byte slices of pooled buffers that are returned after the buffer went back to the pool are reported (8 functions, recorded finding F19). Schedules and happens-before are not decided.",
    design="DESIGN.md §5 C18",
    note=TB + "Both tiers load the dependency's source for the pooled-buffer rule.",
-   technique="package-state and lock-discipline lints incl. reference escapes of package-level maps/slices, write-effect analysis, pooled-buffer escape pattern over dependency syntax"),
+   technique="package-state and lock-discipline lints incl. reference escapes of package-level maps/slices, write-effect analysis, pooled-buffer escape pattern over dependency syntax; reads of once-initialised fields behind the Once (dominance of Do / gate calls, gated producers)"),
  "C02": dict(
    engine="E2 tables + rules/c02.go (+ shared C10/C11 rules)",
    category="other",
    text="The model round trip is behavioural and not claimed. Decided are the necessary conditions the property names: writer/reader agreement of directive parameter keys per kind, a handler or collector for every directive kind, document-order emission of ordered maps, attachment of Body/Headers to the last response of the interaction derived from the same directive, priority of a method's own Tags, and the context-resolution / macro-expansion structure shared with C11 and C10.",
    design="DESIGN.md §5 C02",
    note=TB + "Attachment through context resolution is covered only as far as the C11/C10 rules go.",
-   technique="cross-table agreement (writers vs readers, kinds vs handlers) extracted from typed syntax; dominance rules; index/guard reasoning by definitions and affine forms with abstract evaluation of the setter as second opinion; normaliser lints; per-resource insert/resolve sets"),
+   technique="cross-table agreement (writers vs readers, kinds vs handlers) extracted from typed syntax; dominance rules; index/guard reasoning by definitions and affine forms with abstract evaluation of the setter as second opinion; normaliser lints; per-resource insert/resolve sets; bounded bisimulation of '(' LF against LF on the scanner automaton; abstract run of the '(' handler once per directive kind; reachability from the lexeme dispatch to the placement function; coverage of counting loops"),
  "C03": dict(
    engine="rules/c03.go",
    category="other",
    text="Mechanisms behind 'one fault, rejected at the fault': insert-only-after-pure-presence-test for every name-keyed collection and single-valued slot (closures passed to Update tied to the value tested before), uniqueness sets never reset and never short-cut by 'exists, skip' lookups, every fault-class message still raised on a reachable path, handler errors located on the handler's own directive, no dropped error on the build path, annotation used or rejected per kind, JSIGHT-first before anything is added. Which check fires first for each fault x layout is not claimed.",
    design="DESIGN.md §5 C03",
    note=TB + "Errors of a macro body are relocated to the PASTE line by design (named exception).",
-   technique="dominance of guard tests over insertions (go/cfg), lifted to the callers of helpers, with abstract evaluation of the setter (helpers inlined) as second opinion; silent-exit-under-hit edge facts for declaring functions; liveness of error constants over the call graph; receiver-provenance lint"),
+   technique="dominance of guard tests over insertions (go/cfg), lifted to the callers of helpers, with abstract evaluation of the setter (helpers inlined) as second opinion; silent-exit-under-hit edge facts for declaring functions; liveness of error constants over the call graph; receiver-provenance lint; success returns in front of a check of the function's own statement list; dead and shadowing error stores on SSA; coverage of counting loops and loop-carried flags"),
  "C05": dict(
    engine="rules/c02.go (C05 part) + rules/c03.go",
    category="other",
    text="Both sides of each cross-reference are written together from one value: tag<->interaction pairing, id/key/protocol/method/path derivation, pure presence test before every insertion, tag source priority, body test on every response iteration, Update closures hand back the entry they were given, only codes inside the response-code range become a response directive, JSIGHT version constant. usedUserTypes closure and exact pathVariables are produced by the dependency from data and are not claimed.",
    design="DESIGN.md §5 C05",
    note=TB,
-   technique="value-identity and pairing rules on typed syntax (lifted to the callers of shared helpers); must-pass-through inside loops; visited-set discipline of the tag list; NewDirectiveType folded on the bounds of the response-code range"),
+   technique="value-identity and pairing rules on typed syntax (lifted to the callers of shared helpers); must-pass-through inside loops; visited-set discipline of the tag list; NewDirectiveType folded on the bounds of the response-code range; arguments of the path parsers are the path verbatim; coverage of counting loops"),
  "C01": dict(
    engine="E1 scanner automaton + rules/c01.go, nilness.go, cgraph.go (AST, go/cfg, SSA, VTA call graph)",
    category="other",
    text="Absence of the crash and hang mechanisms that are visible in the code, for every input: each explicit panic, unchecked assertion, nil-able field / GetValue result dereference, value used on its error branch, promoted method over a nil embedded interface and constant index reachable from the build entry points is an obligation with a named discharge; recover handlers assign named results; the scanner automaton never underflows and every cycle consumes input; every recursive call-graph component and non-range loop has a verified termination witness; no lock re-entry under map locks; include cycles refused. Running time, and anything inside jsight-schema-core, is not claimed.",
    design="DESIGN.md §5 C01",
    note=TB + "Named exceptions (one symbol + reason each) are listed in the evidence. Reachability treats a function as callable once it is referenced in reachable code.",
-   technique="reachability over the VTA call graph + per-site discharge rules (dominance on go/cfg, table-backed invariants), pushdown analysis of the extracted scanner automaton, SCC termination witnesses (strict structural / visited-set verification, named assumptions for the rest), loop measures on go/cfg, guards evaluated on the constants of an enumeration (embedded-nil kinds, bounds of the dependency's line functions)"),
+   technique="reachability over the VTA call graph + per-site discharge rules (dominance on go/cfg, table-backed invariants), pushdown analysis of the extracted scanner automaton, SCC termination witnesses (strict structural / visited-set verification, named assumptions for the rest), loop measures on go/cfg, guards evaluated on the constants of an enumeration (embedded-nil kinds, bounds of the dependency's line functions); placement of every recover() call; look-ahead reads of the input bounded by edge facts; presence and must-pass-through of the regex example probe"),
  "C06": dict(
    engine="rules/c06.go",
    category="other",
    text="For the module's own code: every range over a Go map is classified order-insensitive from its body (or is a reasoned named exception), ordered catalog maps iterate their order slice, no nondeterminism source is called, the code is sequential, and no package-level state survives a build. Determinism inside the dependency is trusted (thorough tier lists its sources as observations).",
    design="DESIGN.md §5 C06",
    note=TB + "An unsummarised call inside a map loop is reported, not assumed harmless, unless all its inputs derive from the element.",
-   technique="effect classification of map-range bodies (callee-named keyed-insert summary); who-may-call lint for nondeterminism sources; package-state write and reference-escape analysis"),
+   technique="effect classification of map-range bodies (callee-named keyed-insert summary); who-may-call lint for nondeterminism sources; package-state write and reference-escape analysis; sorts after map ranges must be total orders on the elements"),
  "C13": dict(
    engine="E1 scanner automaton + E2 directive tables",
    category="model_checking",
@@ -105,42 +105,42 @@ CHECKS = {
    text="Well-formedness of the lexeme stream (bracketing, extent >= -1, order, positions) decided for all byte strings on a k-bounded pushdown abstraction of the extracted automaton that over-approximates the scanner (data-dependent branches free). Byte-for-byte equality with the rendered document is a runtime round trip and is not claimed.",
    design="DESIGN.md §5 C12",
    note=TB + "Schema/enum body extents are delegated to the dependency's Len() (trusted <= remaining input).",
-   technique="reachability on a pushdown system extracted from source; typestate of lexeme events; CR LF versus LF bisimulation to a bounded horizon on every configuration; reader-end rule on the transition table; begin/end pairing and the end-of-Description predicate folded on constants (abstract evaluation of SSA)"),
+   technique="reachability on a pushdown system extracted from source; typestate of lexeme events; CR LF versus LF bisimulation to a bounded horizon on every configuration; reader-end rule on the transition table; begin/end pairing and the end-of-Description predicate folded on constants (abstract evaluation of SSA); position-free use of the scanner's parameter list"),
  "C08": dict(
    engine="E1 scanner automaton",
    category="other",
    text="Necessary conditions of layout independence that are visible in the automaton: LF/CR and SP/TAB symmetry per state, comment push/pop/re-feed discipline, blank lines event-free and idempotent, both annotation forms available and '*/' always closing. Catalog equality under rewrites is behavioural and not claimed.",
    design="DESIGN.md §5 C08",
    note=TB + "Description de-indentation and annotation whitespace normalisation are checked only as far as the named rules say.",
-   technique="symmetry and typestate checks on the extracted scanner automaton incl. CR LF versus LF bisimulation to a bounded horizon; interprocedural unquote/normaliser lints; end-of-Description predicate folded for every follower byte"),
+   technique="symmetry and typestate checks on the extracted scanner automaton incl. CR LF versus LF bisimulation to a bounded horizon; interprocedural unquote/normaliser lints; end-of-Description predicate folded for every follower byte; fence symmetry of block comments by shortest paths over the comment states; blank/tab pairing in cut sets and comparisons; '(' transparency by bounded bisimulation"),
  "C10": dict(
    engine="rules/c10.go (AST + go/cfg + go/types)",
    category="other",
    text="Decides the mechanisms PASTE transparency rests on: macro cycles of any length are rejected before expansion (three-colour visited-state discipline verified on the CFG: mark-before-descend, done-on-every-nil-return, on-path test before entering), undefined/unnamed macros are errors, MACRO definitions are removed before expansion, expansion works on reset copies and restores the copy's parent after an explicit context, copies are never identified by coordinates, the ENUM rules of a body are collected on every path before it is expanded, the recursion check visits every sibling, a PASTE after an implicit Description is recognised. Equality with the in-place text for every call site is behavioural and not claimed.",
    design="DESIGN.md §5 C10",
    note=TB + "The rule recognises the visited-state idiom (map from macro name to a named integer state); a different algorithm is reported as undecided/violation rather than accepted.",
-   technique="typestate/pairing and dominance rules over go/cfg; who-may-write rule for the context field; who-may-call rule for coordinate-equality predicates; must-pass-through (rules collected before a body is expanded)"),
+   technique="typestate/pairing and dominance rules over go/cfg; who-may-write rule for the context field; who-may-call rule for coordinate-equality predicates; must-pass-through (rules collected before a body is expanded); abstract run of the expansion walk once per directive kind; who-writes rule for the explicit-context flag"),
  "C11": dict(
    engine="E2 directive tables + rules/c11.go + E1",
    category="other",
    text="The context table in the source equals the frozen JSight 0.3 reference pair by pair, and the resolution algorithm has the required control structure (single context cursor, attach only under the allowed lookup, walk-up only from implicit contexts, explicit contexts reject, ')' closes the innermost explicit context, a directive is placed exactly once - as a child or in the root list - on every successful path, the pending directive is finalised before ')' and before the end-of-file test). The verdict for each concrete directive sequence (table x algorithm product) is not enumerated.",
    design="DESIGN.md §5 C11",
    note=TB + "tools/reference/context_table.json is the oracle for the table; it was derived from the pinned tree and reviewed against the language description.",
-   technique="typed-literal table extraction compared with a reference relation; the accessors folded on all pairs of kinds and compared with the literal (abstract evaluation of SSA); edge facts on the open-context walk; dominance rules on processContext; path/term invariants of processContext and closeLastExplicitContext from abstract evaluation of SSA (internal/ssaeval)"),
+   technique="typed-literal table extraction compared with a reference relation; the accessors folded on all pairs of kinds and compared with the literal (abstract evaluation of SSA); edge facts on the open-context walk; dominance rules on processContext; path/term invariants of processContext and closeLastExplicitContext from abstract evaluation of SSA (internal/ssaeval); '(' transparency by bounded bisimulation; abstract run of the '(' handler per directive kind; reachability from the lexeme dispatch to the placement function; who-writes rule for the explicit-context flag"),
  "C14": dict(
    engine="rules/c14.go + rules/strpred.go (predicate automaton)",
    category="other",
    text="For all parameter strings and include graphs (modulo symlinks/OS path semantics): who-may-call for file primitives, validate-before-stat on the same value, language inclusion of the name predicate in the safe language decided on a product automaton (counterexample word printed), the cycle guard of the scanner stack (decided on the abstract evaluation of Stack.Push/Pop: lookup missed, same term inserted, key is the unwrapped Name() of the scanner's file, Pop deletes it), and an INCLUDE after an implicit Description is recognised as a directive. Thorough tier repeats who-may-call over the whole-program VTA call graph through the dependency.",
    design="DESIGN.md §5 C14",
    note=TB + "A predicate written outside the supported atom set (==, s[0], len, strings.Contains/HasPrefix/HasSuffix/ContainsRune/ContainsAny, range over strings.Split) is reported as undecided.",
-   technique="who-may-call by role + flow of the validated path through parameters; must-pass-through on go/cfg; regular-language inclusion of the extracted name predicate; name-is-path and who-may-raise-the-recursion-message rules; path/term facts of Stack.Push/Pop from abstract evaluation of SSA (internal/ssaeval)"),
+   technique="who-may-call by role + flow of the validated path through parameters; must-pass-through on go/cfg; regular-language inclusion of the extracted name predicate; name-is-path and who-may-raise-the-recursion-message rules; path/term facts of Stack.Push/Pop from abstract evaluation of SSA (internal/ssaeval); a re-wrapped or read file keeps name, bytes and path parameter; escape state of quoted parameters against the two escapes of the language; write count against length"),
  "C19": dict(
    engine="rules/c19.go",
    category="other",
    text="For every directive kind: construction of a Directive from a scanned keyword, the INCLUDE handler's file access and the handler dispatch are each dominated by a by-kind comma-ok lookup of the ban set whose hit branch returns an error; the ban set is written only by WithBannedDirectives into a map made per core and otherwise only looked up. That the message/line equals the expected text for every layout is not claimed.",
    design="DESIGN.md §5 C19",
    note=TB + "Interprocedural guard search is bounded to 3 caller levels in package core.",
-   technique="dominance (must-pass-through) of guard lookups on go/cfg; read/write discipline of one field incl. the literal that creates a core"),
+   technique="dominance (must-pass-through) of guard lookups on go/cfg; read/write discipline of one field incl. the literal that creates a core; every lookup of the ban set has a hit branch that returns an error"),
 }
 
 NOT_APPLICABLE = {
